@@ -73,7 +73,7 @@ pub struct Cont<BS: BitmapSlice = ()> {
     pub rid: u32,
     pub model: Vec<u8>,
     pub arena: Option<Arena>,
-    pub region: Option<MmapRegion>,
+    pub region: Option<vm_memory::GuestRegionMmap<()>>,
     pub base: VolatileSlice<'static, BS>,
     pub track: Option<Track>,
 }
@@ -117,7 +117,8 @@ pub fn new_cont(rid: u32) -> Cont {
     };
     if c.a(4) == 0 && size > 0 {
         // anonymous MmapRegion used as a container (set-up mode: mapping recorded, nothing injected)
-        let region = in_mode(Mode::Setup, || crate::world::anon_region::<()>(size)).expect("anonymous mmap");
+        // a guest region (guest base chosen so that region offsets and guest addresses differ)
+        let region = in_mode(Mode::Setup, || crate::world::anon_region::<()>(size).map(|r| vm_memory::GuestRegionMmap::new(r, vm_memory::GuestAddress(0x7000)).expect("guest region"))).expect("anonymous mmap");
         let ptr = region.as_ptr();
         cx().add_range(ptr as usize, size.div_ceil(PAGE) * PAGE, rid, true);
         let model: Vec<u8> = (0..size).map(|i| pat(1000 + rid, i)).collect();
@@ -429,7 +430,10 @@ fn run_mem<BS: BitmapSlice>(mk: impl Fn(u32) -> Cont<BS>, tracked: bool) -> RunI
             }
             let ci = cx().a(conts.len() as u32) as usize;
             let spec = gen_view(conts[ci].size);
-            let mut kind = cx().a(25);
+            let mut kind = cx().a(27);
+            if kind >= 25 && conts[ci].region.is_none() {
+                kind = cx().a(25);
+            }
             if tracked && kind == 20 {
                 kind = 0; // writes through handed-out references are exempt from tracking
             }
@@ -905,6 +909,53 @@ impl Mem {
                     note_w(ci, voff + addr, voff + addr + 4);
                 }
                 j.expect(&got, &exp);
+                tally!(got);
+            }
+            // ---- the region's own byte-access interface (Bytes<MemoryRegionAddress>) -----------------------
+            25 | 26 => {
+                use vm_memory::guest_memory::Error as GErr;
+                use vm_memory::MemoryRegionAddress as MRA;
+                let reg = conts[ci].region.as_ref().unwrap();
+                let size = conts[ci].size;
+                let addr = gen_off(size);
+                let n = gen_len(size);
+                let k = if addr < size { n.min(size - addr) } else { 0 };
+                let gobs = |e: GErr| match e {
+                    GErr::InvalidBackendAddress => Obs::Oob,
+                    GErr::PartialBuffer { expected, completed } => Obs::Partial(expected, completed),
+                    e => Obs::Panic(format!("{:?}", e)),
+                };
+                let rbase = cont_base_in_range(&conts[ci]);
+                let form = cx().a(6);
+                let data: Vec<u8> = (0..n).map(|i| pat(stamp, i)).collect();
+                let mut rbuf = vec![0xAAu8; n];
+                j.kind = ["region.write", "region.read", "region.write_slice", "region.read_slice", "region.write_obj", "region.read_obj"][form as usize];
+                j.desc = format!("{}(len {}, region offset {})", j.kind, if form >= 4 { 8 } else { n }, addr);
+                let (got, exp, wrote): (Obs, Obs, usize) = match form {
+                    0 => (with_allowed(rid, &[(rbase + addr, rbase + addr + k)], || flat(catch(|| reg.write(&data, MRA(addr as u64))), |r| match r { Ok(c) => Obs::Count(c), Err(e) => gobs(e) })), if addr < size { Obs::Count(k) } else { Obs::Oob }, k),
+                    1 => (with_allowed(rid, &[(rbase + addr, rbase + addr + k)], || flat(catch(|| reg.read(&mut rbuf, MRA(addr as u64))), |r| match r { Ok(c) => Obs::Count(c), Err(e) => gobs(e) })), if addr < size { Obs::Count(k) } else { Obs::Oob }, 0),
+                    2 => (with_allowed(rid, &[(rbase + addr, rbase + addr + k)], || flat(catch(|| reg.write_slice(&data, MRA(addr as u64))), |r| match r { Ok(()) => Obs::Unit, Err(e) => gobs(e) })), if addr >= size { Obs::Oob } else if k < n { Obs::Partial(n, k) } else { Obs::Unit }, k),
+                    3 => (with_allowed(rid, &[(rbase + addr, rbase + addr + k)], || flat(catch(|| reg.read_slice(&mut rbuf, MRA(addr as u64))), |r| match r { Ok(()) => Obs::Unit, Err(e) => gobs(e) })), if addr >= size { Obs::Oob } else if k < n { Obs::Partial(n, k) } else { Obs::Unit }, 0),
+                    4 => {
+                        let k8 = if addr < size { 8usize.min(size - addr) } else { 0 };
+                        let v = mk::<u64>(&(0..8).map(|i| pat(stamp, i)).collect::<Vec<u8>>());
+                        (with_allowed(rid, &[(rbase + addr, rbase + addr + k8)], || flat(catch(|| reg.write_obj(v, MRA(addr as u64))), |r| match r { Ok(()) => Obs::Unit, Err(e) => gobs(e) })), if addr >= size { Obs::Oob } else if k8 < 8 { Obs::Partial(8, k8) } else { Obs::Unit }, k8)
+                    }
+                    _ => {
+                        let k8 = if addr < size { 8usize.min(size - addr) } else { 0 };
+                        let want = if k8 == 8 { Obs::Bytes(conts[ci].model[addr..addr + 8].to_vec()) } else if addr >= size { Obs::Oob } else { Obs::Partial(8, k8) };
+                        (with_allowed(rid, &[(rbase + addr, rbase + addr + k8)], || flat(catch(|| reg.read_obj::<u64>(MRA(addr as u64))), |r| match r { Ok(v) => Obs::Bytes(bytes_of(&v)), Err(e) => gobs(e) })), want, 0)
+                    }
+                };
+                if wrote > 0 {
+                    let src: Vec<u8> = if form == 4 { (0..8).map(|i| pat(stamp, i)).collect() } else { data.clone() };
+                    conts[ci].model[addr..addr + wrote].copy_from_slice(&src[..wrote]);
+                    note_w(ci, addr, addr + wrote);
+                }
+                j.expect(&got, &exp);
+                if matches!(form, 1 | 3) && got == exp && k > 0 && (form == 1 || k == n) && rbuf[..k] != conts[ci].model[addr..addr + k] {
+                    cx().violate("C04", "C04/data", format!("{} data", j.kind), format!("step {} {}: wrong bytes", step, j.desc));
+                }
                 tally!(got);
             }
             // ---- pointer guards (C17, standard build) -------------------------------------------------
